@@ -17,8 +17,12 @@ use p256::ecdsa::{signature::Signer, signature::Verifier, Signature, VerifyingKe
 use rand::Rng;
 
 #[derive(Clone, Copy, Debug, PartialEq)]
-enum Kind { OtherSessionAttachedOriginal, SameSessionAttachedOriginal, Absent, Authentic, SigFlipped, ItemsReencodedAfterSigning, OtherSession, OtherItems, SelfSignedReader, ExpiredReader, DsCertAsReader, WrongKey, PayloadAttached, AlgEs384, NoX5chain, X5chainInProtected }
-const KINDS: [Kind; 16] = [Kind::OtherSessionAttachedOriginal, Kind::SameSessionAttachedOriginal, Kind::Absent, Kind::Authentic, Kind::SigFlipped, Kind::ItemsReencodedAfterSigning, Kind::OtherSession, Kind::OtherItems, Kind::SelfSignedReader, Kind::ExpiredReader,
+enum Kind { OtherSessionAttachedOriginal, SameSessionAttachedOriginal, Absent, Authentic, SigFlipped, ItemsReencodedAfterSigning, OtherSession, OtherItems, SelfSignedReader, ExpiredReader, DsCertAsReader, WrongKey, PayloadAttached, AlgEs384, NoX5chain, X5chainInProtected,
+    /// x5chain = [impostor's self-issued certificate, a genuine trusted reader certificate], signed by the impostor
+    ImpostorThenGenuine,
+    /// x5chain = [genuine reader certificate, some unrelated certificate], signed by the genuine reader
+    GenuineThenUnrelated }
+const KINDS: [Kind; 18] = [Kind::ImpostorThenGenuine, Kind::GenuineThenUnrelated, Kind::OtherSessionAttachedOriginal, Kind::SameSessionAttachedOriginal, Kind::Absent, Kind::Authentic, Kind::SigFlipped, Kind::ItemsReencodedAfterSigning, Kind::OtherSession, Kind::OtherItems, Kind::SelfSignedReader, Kind::ExpiredReader,
     Kind::DsCertAsReader, Kind::WrongKey, Kind::PayloadAttached, Kind::AlgEs384, Kind::NoX5chain, Kind::X5chainInProtected];
 
 fn der(c: &x509_cert::Certificate) -> Vec<u8> { use der::Encode; c.to_der().unwrap() }
@@ -57,8 +61,15 @@ fn build(kind: Kind, idx: usize, pki: &Pki, transcript: &Value, other_transcript
         Kind::ExpiredReader => { let mut s = world::leaf_spec("CN=reader,C=US", "CN=readerca,C=US", &pki.reader_key, &pki.reader_ca_key, world::EKU_READER); s.not_before = -7200; s.not_after = -3600; cert = world::build_cert(&s, &pki.reader_key, &pki.reader_ca_key); }
         Kind::DsCertAsReader => { cert = pki.ds.clone(); key = pki.ds_key.clone(); }
         Kind::WrongKey => { key = world::key_from(rng); }
+        Kind::ImpostorThenGenuine => { key = world::key_from(rng); cert = world::build_cert(&world::leaf_spec("CN=reader,C=US", "CN=reader,C=US", &key, &key, world::EKU_READER), &key, &key); }
         _ => {}
     }
+    // further certificates after the first one (the property speaks of the FIRST certificate only)
+    let tail: Vec<x509_cert::Certificate> = match kind {
+        Kind::ImpostorThenGenuine => vec![pki.reader.clone()],
+        Kind::GenuineThenUnrelated => { let k2 = world::key_from(rng); vec![world::build_cert(&world::leaf_spec("CN=other,C=US", "CN=other,C=US", &k2, &k2, world::EKU_READER), &k2, &k2)] }
+        _ => vec![] };
+    let x5_value = if tail.is_empty() { Value::Bytes(der(&cert)) } else { Value::Array(std::iter::once(&cert).chain(tail.iter()).map(|c| Value::Bytes(der(c))).collect()) };
     let sign_transcript = if kind == Kind::OtherSession || kind == Kind::OtherSessionAttachedOriginal { other_transcript } else { transcript };
     let sign_items = if kind == Kind::OtherItems { items_request(&doc_type, &["portrait"], false) } else { items.clone() };
     if kind == Kind::X5chainInProtected { prot = to_bytes(&Value::Map(vec![(Value::Integer(1.into()), Value::Integer((-7).into())), (Value::Integer(33.into()), Value::Bytes(der(&cert)))])); }
@@ -67,7 +78,7 @@ fn build(kind: Kind, idx: usize, pki: &Pki, transcript: &Value, other_transcript
     let mut sig_bytes = sig.to_vec();
     if kind == Kind::SigFlipped { let i = rng.gen_range(0..64); sig_bytes[i] ^= 1 << rng.gen_range(0..8); }
     if kind == Kind::ItemsReencodedAfterSigning { items = items_request(&doc_type, &["family_name", "age_over_18"], true); }
-    let unprot = if kind == Kind::NoX5chain || kind == Kind::X5chainInProtected { Value::Map(vec![]) } else { Value::Map(vec![(Value::Integer(33.into()), Value::Bytes(der(&cert)))]) };
+    let unprot = if kind == Kind::NoX5chain || kind == Kind::X5chainInProtected { Value::Map(vec![]) } else { Value::Map(vec![(Value::Integer(33.into()), x5_value.clone())]) };
     // the bytes that were actually signed, placed in the (normally nil) payload slot
     let signed_ra = { let ra = Value::Array(vec![Value::Text("ReaderAuthentication".into()), sign_transcript.clone(), Value::Tag(24, Box::new(Value::Bytes(sign_items.clone())))]);
         to_bytes(&Value::Tag(24, Box::new(Value::Bytes(to_bytes(&ra))))) };
@@ -77,7 +88,8 @@ fn build(kind: Kind, idx: usize, pki: &Pki, transcript: &Value, other_transcript
     let dr = Value::Map(vec![(Value::Text("itemsRequest".into()), Value::Tag(24, Box::new(Value::Bytes(items.clone())))), (Value::Text("readerAuth".into()), reader_auth)]);
     // facts, independently
     let x5p = unprot.as_map().map(|m| !m.is_empty()).unwrap_or(false);
-    let chain = if x5p { X5Chain::from_cbor(Value::Bytes(der(&cert))).ok() } else { None };
+    // facts about the FIRST certificate alone: it is validated as a one-certificate chain
+    let chain = if x5p && X5Chain::from_cbor(x5_value.clone()).is_ok() { X5Chain::from_cbor(Value::Bytes(der(&cert))).ok() } else { None };
     let chain_errs = chain.as_ref().map(|c| ValidationRuleset::MdlReaderOneStep.validate(c, registry).errors.len()).unwrap_or(0);
     let vk: Option<VerifyingKey> = chain.as_ref().and_then(|c| c.end_entity_public_key::<p256::NistP256>().ok());
     let tbs_device = reader_auth_tbs(transcript, &items, &prot);
